@@ -319,7 +319,7 @@ Definition pattern (n : nat) (seed : N) : bytes := pattern_acc n (N.of_nat n) se
 Definition sx_tag (x : sx) : option tag :=
   match x with
   | SL [SZ ty; SZ ts; SB b] => Some (mk_tag (Z.to_N ty) (Z.to_N ts) b)
-  | SL [SZ ty; SZ ts; SL [SZ n; SZ seed]] =>
+  | SL [SZ ty; SZ ts; SL [SZ n; SZ seed; SB _]] =>   (* third element: ignored filler *)
       Some (mk_tag (Z.to_N ty) (Z.to_N ts) (pattern (Z.to_nat n) (Z.to_N seed)))
   | _ => None
   end.
